@@ -167,6 +167,15 @@ class Dem:
             return F * 0.5 + 0.3
         setup = case.get("setup", "ctor") if F is not None else "ctor"
         try:
+            if case.get("rival") and case.get("repair_as") != "bad-name":
+                # an operator built earlier in the process with a *user* repair that happens to be named like a built-in one
+                def _named(nm):
+                    def f(X, Xb, xl, xu, **kw):
+                        return np.where((X < xl) | (X > xu), (xl + xu) / 2 + 0 * X, X)
+                    f.__name__ = f.__qualname__ = nm
+                    return f
+                for nm_ in ("bounce_back", "midway", "rand_init", "to_bounds", (case["repair"] or "bounce-back")):
+                    DEM(F=0.7, gamma=None, de_repair=_named(nm_), n_diffs=1)
             if setup == "ctor":
                 op = DEM(F=F, gamma=case["gamma"], de_repair=rep_arg, n_diffs=(n_par - 1) // 2)
             else:
@@ -401,6 +410,13 @@ class Dex:
                 # make every coordinate of the mutant differ from the target so the mask is observable
                 same = V == Xt
                 V = np.where(same, np.where(Xt == xl, xu, xl), V)
+            if rng.randint(5) == 0:
+                # mutants outside the box (a user repair that leaves violations in place, DEX used on hand-made pairs):
+                # crossover copies coordinates whatever their values
+                w = np.maximum(xu - xl, 1.0)
+                out = rng.random_sample(V.shape) < 0.5
+                V = np.where(out, np.where(rng.random_sample(V.shape) < 0.5, xl - (0.1 + rng.random_sample(V.shape)) * w,
+                                           xu + (0.1 + rng.random_sample(V.shape)) * w), V)
             int_targets = bool(rng.randint(7) == 0)
             if int_targets:
                 # integer-coded target population (integer dtype) crossed with real-valued mutants
@@ -469,6 +485,8 @@ class Dex:
         rec.tags.add("CR:" + ("0" if case["CR"] == 0 else "1" if case["CR"] == 1 else "mid"))
         if (V != Xt).all():
             rec.tags.add("observable-mask")
+        if ((V < np.array(case["xl"], dtype=float)) | (V > np.array(case["xu"], dtype=float))).any():
+            rec.tags.add("mutants-outside-the-box")
         return rec
 
     @staticmethod
@@ -534,6 +552,9 @@ class Dex:
         if rec.err is not None:
             return ["DEX raised: " + rec.err]
         U, xl, xu = rec.out["U"], rec.inp["xl"], rec.inp["xu"]
+        Vin = rec.inp["V"]
+        if ((Vin < xl) | (Vin > xu)).any():
+            return []       # C01 presupposes mutants that went through the repair (inside the box)
         m = (U < xl) | (U > xu) | np.isnan(U)
         if m.any():
             i, j = np.argwhere(m)[0]
@@ -758,6 +779,9 @@ class Des:
                    # individuals that also carry a crowding attribute (populations that came out of a survival)
                    "crowd_attr": [float(x) for x in np.where(rng.random_sample(n_pop) < 0.25, np.inf, rng.random_sample(n_pop))]
                    if rng.randint(3) == 0 else None,
+                   # how the operator came to its variant: built with it / built with another one and re-configured
+                   # (`algorithm.mating.selection.variant = ...`) / deep-copied from such a template and re-configured
+                   "setup": ["ctor", "ctor", "assign", "copy-assign"][rng.randint(4)],
                    "via": ["_do", "do"][rng.randint(2)], "seed": int(rng.randint(2**31 - 1))}
 
     @staticmethod
@@ -794,7 +818,15 @@ class Des:
             try:
                 with warnings.catch_warnings(record=True) as w:
                     warnings.simplefilter("always")
-                    sel = DES(case["kind"])
+                    if case.get("setup", "ctor") == "ctor":
+                        sel = DES(case["kind"])
+                    else:
+                        import copy as _copy
+                        sel = DES(SELECTIONS[(SELECTIONS.index(case["kind"]) + 1 + case["seed"] % 5) % 6])
+                        if case["setup"] == "copy-assign":
+                            sel = _copy.deepcopy(sel)
+                        sel.variant = case["kind"]
+                        rec.tags.add("setup:" + case["setup"])
                     n_sel = case.get("n_sel", case["n_pop"])
                     if case["via"] == "_do":
                         P = sel._do(None, pop, n_sel, case["n_par"])
@@ -905,6 +937,8 @@ class Variant:
                    "repair": REPAIR_KINDS[rng.randint(4)] if rng.randint(6) > 0 else None,
                    "pm": bool(rng.randint(4) == 0), "ranks": gen_ranks(rng, n_pop),
                    "entry": ["variant", "algorithm"][rng.randint(2)], "warm": bool(rng.randint(3) == 0),
+                   # which algorithm class builds the mating when the entry point is Algorithm._infill
+                   "algo_cls": ["GDE3", "NSDE", "DE", "NSDER", "GDE3MNN"][rng.randint(5)],
                    "xl": xl, "xu": xu, "PX": PX, "seed": int(rng.randint(2**31 - 1))}
 
     @staticmethod
@@ -918,7 +952,7 @@ class Variant:
         from pymoo.core.population import Population
         from pymoo.operators.mutation.pm import PM
         from pymoode.operators.variant import DifferentialVariant
-        cfgk = ("sel", "y", "cross", "CR", "F", "gamma", "repair", "pm", "ranks", "entry", "warm", "seed")
+        cfgk = ("sel", "y", "cross", "CR", "F", "gamma", "repair", "pm", "ranks", "entry", "warm", "seed", "algo_cls")
         rec = Record("variant", {k: case.get(k) for k in cfgk}, {k: case[k] for k in ("xl", "xu", "PX")})
         PX = np.array(case["PX"], dtype=float, copy=True)
         n, d = PX.shape
@@ -946,8 +980,22 @@ class Variant:
                     algo = None
                 else:
                     # the path Algorithm.ask() takes: algorithm._infill -> mating.do
-                    from pymoode.algorithms import GDE3
-                    algo = GDE3(pop_size=n, **kw)
+                    import pymoode.algorithms as _alg
+                    cls_ = case.get("algo_cls") or "GDE3"
+                    rec.tags.add("algorithm:" + cls_)
+                    if cls_ == "NSDER":
+                        algo = _alg.NSDER(np.array([[1.0]]), pop_size=n, **kw)
+                    elif cls_ == "GDE3MNN":
+                        kw2 = {k_: v_ for k_, v_ in kw.items() if k_ not in ("variant", "CR", "F", "gamma")}
+                        algo = _alg.GDE3MNN(n, kw["variant"], kw["CR"], kw["F"], kw["gamma"], **kw2)
+                    elif cls_ == "DE":
+                        kwd = dict(kw)
+                        if kwd.get("F") is None:
+                            kwd["F"] = (0.5, 1.0)       # DE has no `None` default
+                            rec.cfg["F"] = [0.5, 1.0]
+                        algo = _alg.DE(pop_size=n, **kwd)
+                    else:
+                        algo = getattr(_alg, cls_)(pop_size=n, **kw)
                     algo.setup(prob, seed=case["seed"], verbose=False)
                     algo.pop = pop
                     algo.is_initialized = True
@@ -965,6 +1013,8 @@ class Variant:
                     finally:
                         R.paused = False
                     rec.tags.add("warm")
+                fn_ = getattr(mating.de_mutation, "de_repair", None)
+                rec.out["repair_fn"] = getattr(fn_, "__name__", type(fn_).__name__)
                 mating.selection = _Tap(mating.selection, sink, "P")
                 mating.de_mutation = _Tap(mating.de_mutation, sink, "V")
                 mating.crossover = _Tap(mating.crossover, sink, "U")
@@ -1053,6 +1103,25 @@ class Variant:
         return list(rec.frames)
 
     @staticmethod
+    def oracle_C11(rec):
+        """the mating an algorithm (or DifferentialVariant) builds repairs with the strategy it was asked for; repaired
+        mutants are inside the box"""
+        if rec.err is not None:
+            return ["mating raised: " + rec.err]
+        bad = []
+        want = {"bounce-back": "bounce_back", "midway": "midway", "to-bounds": "to_bounds", "rand-init": "rand_init"}.get(rec.cfg["repair"] or "bounce-back")
+        got = rec.out.get("repair_fn")
+        if got is not None and got != want:
+            bad.append("de_repair=%r was asked for, the mutation operator of the %s repairs with %r" % (
+                rec.cfg["repair"] or "bounce-back", rec.cfg.get("algo_cls") if rec.cfg["entry"] == "algorithm" else "DifferentialVariant", got))
+        if rec.cfg["repair"] is not None:
+            xl, xu = rec.inp["xl"], rec.inp["xu"]
+            V = rec.out["V"]
+            if ((V < xl) | (V > xu) | np.isnan(V)).any():
+                bad.append("a repaired mutant lies outside the box")
+        return bad + list(rec.frames)
+
+    @staticmethod
     def oracle_C09(rec):
         if rec.err is not None:
             return ["mating raised: " + rec.err]
@@ -1094,5 +1163,5 @@ class Variant:
         return Dex.oracle_C12(r2) + list(rec.frames)
 
 
-Variant.ORACLES = {"C01": Variant.oracle_C01, "C09": Variant.oracle_C09, "C10": Variant.oracle_C10,
+Variant.ORACLES = {"C11": Variant.oracle_C11, "C01": Variant.oracle_C01, "C09": Variant.oracle_C09, "C10": Variant.oracle_C10,
                    "C12": Variant.oracle_C12, "C19": Variant.oracle_C09}
